@@ -53,6 +53,7 @@ def evalBlockTag (k : KState) : BlockTag → Bool
        | some (_, t) => decide (t ≥ k.switchMaxKeyTiming)
        | none => true)
   | .cbChordsV2Accepts => true
+  | .cbNotRecordingDynMacro => true   -- dynamic macros are outside this model: nothing is ever recorded
 
 theorem canBlock_layout (k : KState) (ms : Nat) :
     (canBlockUpdateIdleWaiting k ms).1.layout = k.layout ∧
